@@ -280,6 +280,9 @@ impl<'tcx> Cx<'tcx> {
         if let Const::Unevaluated(uv, _) = c.const_ {
             o.push(("uneval", s(pretty(self.tcx, uv.def))));
             o.push(("uneval_uid", s(uid(self.tcx, uv.def))));
+            if let Some(p) = uv.promoted {
+                o.push(("promoted", J::Num(p.as_usize() as i128)));
+            }
         }
         // statics referenced as `&STATIC` show up as a pointer constant to an alloc
         if let Const::Val(rustc_middle::mir::ConstValue::Scalar(
@@ -516,6 +519,37 @@ impl<'tcx> Cx<'tcx> {
     }
 }
 
+fn dump_promoted<'tcx>(tcx: TyCtxt<'tcx>, ldid: LocalDefId) -> Vec<J> {
+    let def_id = ldid.to_def_id();
+    let kind = tcx.def_kind(def_id);
+    if !matches!(kind, DefKind::Fn | DefKind::AssocFn | DefKind::Closure) {
+        return Vec::new();
+    }
+    let env = TypingEnv::post_analysis(tcx, def_id);
+    let cx = Cx { tcx, env };
+    let mut out = Vec::new();
+    for (idx, body) in tcx.promoted_mir(def_id).iter_enumerated() {
+        let locals: Vec<J> = body
+            .local_decls
+            .iter()
+            .map(|d| J::Obj(vec![("ty", s(ty_str(d.ty))), ("mut", J::Bool(d.mutability.is_mut()))]))
+            .collect();
+        let blocks: Vec<J> = body.basic_blocks.iter().map(|bb| cx.block(body, bb)).collect();
+        out.push(J::Obj(vec![
+            ("id", s(format!("{}::promoted[{}]", uid(tcx, def_id), idx.as_usize()))),
+            ("name", s(format!("{}::promoted[{}]", pretty(tcx, def_id), idx.as_usize()))),
+            ("kind", s("Promoted")),
+            ("span", span_j(tcx, tcx.def_span(def_id))),
+            ("arg_count", J::Num(0)),
+            ("parent", s(uid(tcx, def_id))),
+            ("locals", J::Arr(locals)),
+            ("vars", J::Arr(Vec::new())),
+            ("blocks", J::Arr(blocks)),
+        ]));
+    }
+    out
+}
+
 fn dump_body<'tcx>(tcx: TyCtxt<'tcx>, ldid: LocalDefId) -> Option<J> {
     let def_id = ldid.to_def_id();
     let kind = tcx.def_kind(def_id);
@@ -620,10 +654,12 @@ impl Callbacks for Cb {
         };
         let crate_name = tcx.crate_name(rustc_hir::def_id::LOCAL_CRATE).to_string();
         let mut bodies = Vec::new();
+        let mut promoted = Vec::new();
         for ldid in tcx.mir_keys(()).iter() {
             if let Some(j) = dump_body(tcx, *ldid) {
                 bodies.push(j);
             }
+            promoted.extend(dump_promoted(tcx, *ldid));
         }
         // statics, adts, fns (unsafe), impls (unsafe / Drop)
         let mut statics = Vec::new();
@@ -753,6 +789,7 @@ impl Callbacks for Cb {
                 J::Bool(tcx.sess.opts.test),
             ),
             ("bodies", J::Arr(bodies)),
+            ("promoted", J::Arr(promoted)),
             ("statics", J::Arr(statics)),
             ("adts", J::Arr(adts)),
             ("impls", J::Arr(impls)),
